@@ -574,10 +574,22 @@ class Run:
         out, seen = [], [first]
         t_end = time.time() + 20
         ivars = [(k, v) for k, v in self.inputs.items() if z3.is_int(v)]
+        rvars = [(k, v) for k, v in self.inputs.items() if z3.is_real(v)]
+
+        def differs(s):
+            out = [v != z3.IntVal(int(s[k])) for k, v in ivars if isinstance(s.get(k), int) and not isinstance(s.get(k), bool)]
+            for k, v in rvars:
+                try:
+                    out.append(v != z3.RealVal(str(s[k])))
+                except Exception:
+                    pass
+            return out
+        # real-valued inputs: ask for models in general position (pairwise distinct values) - degenerate models
+        # (everything 0) are what the solver returns first and are the least useful for lifting or replay
+        generic = [z3.Distinct([v for _k, v in rvars])] if len(rvars) >= 2 else []
         for _ in range(self.cfg.soft_alternatives):
-            strong = [v != z3.IntVal(int(s[k])) for s in seen for k, v in ivars if isinstance(s.get(k), int) and not isinstance(s.get(k), bool)]
-            weak = [z3.Or([v != z3.IntVal(int(s[k])) for k, v in ivars if isinstance(s.get(k), int) and not isinstance(s.get(k), bool)] or [z3.BoolVal(False)])
-                    for s in seen]
+            strong = [c for s in seen for c in differs(s)] + generic
+            weak = [z3.Or(differs(s) or [z3.BoolVal(False)]) for s in seen]
             got = None
             for block in (strong, weak):
                 if time.time() > t_end:
